@@ -4,7 +4,7 @@ import ast
 from ..absint import Explorer, UNKNOWN
 from ..astutil import norm, const, NO, compare, tail, names
 from ..index import AnalysisError, walk_own
-from .common import (site, key, calls_to, method_calls, nodes_with, guard_check, stores_to_name, cfg_attr, sample_polarity, kills_of)
+from .common import (site, key, calls_to, method_calls, nodes_with, guard_check, stores_to_name, cfg_attr, sample_polarity, kills_of, rname)
 
 MSG = "gunicorn.http.message"
 WSGI = "gunicorn.http.wsgi"
@@ -260,22 +260,47 @@ def r4(ctx):
     ctx.need(ra, "C08.R4: REMOTE_ADDR is never set in wsgi.create")
     for s in ra + key_stores("REMOTE_PORT"):
         ctx.check("C08.R4", names(s.ast.value) <= {CLIENT, "str"}, key(f, "remote-from-peer|" + norm(s.ast.targets[0])), site(f, s), "REMOTE_ADDR/REMOTE_PORT is not derived from the peer address argument", "from the `client` argument")
-    upd = [n for c in method_calls(f, "update") if c.args and isinstance(c.args[0], ast.Call) and repo.call_target(f.module, f, c.args[0]) == WSGI + ".proxy_environ" for n in nodes_with(f, c)]
-    ctx.check("C08.R4", len(upd) == 1, key(f, "proxy-override"), site(f), "environ.update(proxy_environ(req)) not found exactly once", "proxy override present")
+    # the PROXY override: `environ.update(D)` where D is (or is a local every store to which is) a dict display, one of
+    # them carrying REMOTE_ADDR -- whether written in place or in a helper that was expanded here
+    def dict_sources(e):
+        if isinstance(e, ast.Dict):
+            return [(e, None)]
+        if isinstance(e, ast.Name):
+            out = []
+            for st in stores_to_name(f, e.id):
+                if isinstance(st.ast, ast.Assign) and isinstance(st.ast.value, ast.Dict):
+                    out.append((st.ast.value, st))
+                else:
+                    return []
+            return out
+        return []
+    upd, full, empties = [], [], []
+    for c in method_calls(f, "update"):
+        if not c.args:
+            continue
+        src = dict_sources(c.args[0])
+        if any(any(const(k, NO) == "REMOTE_ADDR" for k in d.keys) for d, _ in src):
+            upd += nodes_with(f, c)
+            for d, st in src:
+                (full if d.keys else empties).append((d, st if st is not None else nodes_with(f, c)[0]))
+    ctx.check("C08.R4", len(upd) == 1, key(f, "proxy-override"), site(f), "the PROXY override of REMOTE_ADDR (environ.update({... 'REMOTE_ADDR': ...})) is not found exactly once", "proxy override present")
     if upd:
-        after = g.reachable(upd, follow_exc=False)
+        after = g.reachable([(u, "next") for u in upd], follow_exc=False)
         late = [s for s in ra + key_stores("REMOTE_PORT") if s in after]
-        ctx.check("C08.R4", not late and all(g.dominates(s, upd[0], follow_exc=False) or True for s in ra), key(f, "override-last"), site(f, upd[0]),
+        ctx.check("C08.R4", not late, key(f, "override-last"), site(f, upd[0]),
                   "REMOTE_ADDR is written again after the PROXY override (the proxy's own address would win)", "override is the last write")
         ctx.check("C08.R4", all(upd[0] in g.reachable([s], follow_exc=False) for s in ra), key(f, "override-after-peer"), site(f, upd[0]), "the PROXY override does not come after the peer address", "override after peer address")
-    pe = ctx.fn(repo.func(WSGI + ".proxy_environ"))
-    rets = [n for n in pe.cfg.stmts(ast.Return)]
-    empt = [n for n in rets if isinstance(n.ast.value, ast.Dict) and not n.ast.value.keys]
-    ctx.check("C08.R4", bool(empt), key(pe, "empty-without-info"), site(pe), "proxy_environ does not return {} when there is no PROXY info", "{} without info")
-    full = [n for n in rets if isinstance(n.ast.value, ast.Dict) and n.ast.value.keys]
-    for n in full:
-        d = dict((const(k, NO), norm(v)) for k, v in zip(n.ast.value.keys, n.ast.value.values))
-        ctx.check("C08.R4", "client_addr" in d.get("REMOTE_ADDR", "") and "client_port" in d.get("REMOTE_PORT", ""), key(pe, "remote-from-proxy-line"), site(pe, n),
+    REQ = f.params[0]
+
+    def info_recog(e):
+        if rname(f, e) == "%s.proxy_protocol_info" % REQ:
+            return -1          # true edge: there is PROXY info
+        return None
+    for d, node in full:
+        p, hits = guard_check(f, [node], info_recog)
+        ctx.check("C08.R4", p is None, key(f, "empty-without-info"), site(f, node), "the PROXY override is applied although the request carries no PROXY info", "override only with info", path=p and g.fmt_path(p))
+        dd = dict((const(k, NO), norm(v)) for k, v in zip(d.keys, d.values))
+        ctx.check("C08.R4", "client_addr" in dd.get("REMOTE_ADDR", "") and "client_port" in dd.get("REMOTE_PORT", ""), key(f, "remote-from-proxy-line"), site(f, node),
                   "REMOTE_ADDR/PORT of the override are not the PROXY line's client address/port", "REMOTE_ADDR <- client_addr")
     # script_name sources
     sn = [s for s in g.stmts(ast.Assign) if any(isinstance(t, ast.Name) and t.id == "script_name" for t in s.ast.targets)]
